@@ -192,7 +192,9 @@ def run(tier):
         "keys (standard, all-zero, all-FF, random) x blocks (standard, extremes, single-bit, random) through the "
         "public Block with the accelerated path on and off (in place and not, key slice overwritten after "
         "construction), both key schedules word for word, every kernel (portable 1/2-block, vector 1/2/4/8/16) with "
-        "pairwise distinct blocks per lane and one-hot lanes, key lengths 0..40; TLC recomputes every output block "
+        "pairwise distinct blocks per lane and one-hot lanes, key lengths 0..40, key pairs colliding under cheap "
+        "fingerprints, the caller's key BUFFER reused for the next key / wiped (no retained slice), slices longer than one "
+        "block (only the first block processed, the rest untouched); TLC recomputes every output block "
         "with the pure TLA+ SM4 (algebraic S-box = table and the standard example checked every run)",
         ["TLC; SM4.tla validated by the GB/T 32907 example and the algebraic S-box identity",
          "arm64 NEON kernels cannot be executed in this sandbox and are not covered",
